@@ -113,6 +113,12 @@ __wrap_poll(struct pollfd * fds, nfds_t nfds, int timeout)
 	/* the answer */
 	a = (w_pollpos < w_npolls) ? &w_polls[w_pollpos++] : NULL;
 	if (a == NULL || a->kind != 0) {
+		/* an interrupted poll(2) returns with every revents written as 0, as Linux does (its
+		 * copy-out of revents is unconditional).  POSIX leaves revents unspecified on failure and
+		 * FreeBSD skips the copy-out: there the array keeps what the caller left in it, and
+		 * events_network_select() goes on to scan it after an interrupt.  Leaving revents untouched
+		 * here makes the UNCHANGED library dispatch callbacks from stale readiness bits, so that
+		 * kernel behaviour is outside what this harness assumes (reported, not enabled). */
 		for (i = 0; i < nfds; i++)
 			fds[i].revents = 0;
 		if (a == NULL || a->kind == 2) {
